@@ -66,6 +66,18 @@ def effect_calls(fn):
     return live_calls(fn, include_transparent=False)
 
 
+def is_pure_getter(F, q, depth=2):
+    """A crate function that only reads: every parameter is a shared reference or a plain value, and every call it makes is
+    transparent plumbing or again a pure getter (interior mutation needs an atomic / lock call, which is neither)."""
+    f = F.fns.get(q) if q else None
+    if f is None or depth < 0:
+        return False
+    ins = f.meta.get("inputs") or []
+    if any(str(i).startswith("&mut") or str(i).startswith("*mut") for i in ins):
+        return False
+    return all(is_pure_getter(F, c.res or c.q, depth - 1) or is_pure_getter(F, c.q, depth - 1) for c in effect_calls(f))
+
+
 def is_log_pred(p):
     s = show(p.tree)
     return "log::max_level" in s or "log::Level" in s or "STATIC_MAX_LEVEL" in s or "Level::" in s and "PartialOrd" in s
